@@ -205,10 +205,11 @@ func (c *c10) runReader(r *core.R, rng *rand.Rand, total, savedMask int, allDama
 	for v := 1; v <= nv; v++ {
 		vols[v] = par1rw.Build(in, v, par1rw.Parity(in, v), version)
 	}
-	// non-saved files sometimes absent on disk
+	// non-saved files are sometimes absent or altered on disk, and stay so
+	e.bystander = map[int]string{}
 	for i := range files {
-		if savedMask&(1<<uint(i)) == 0 && rng.Intn(2) == 0 {
-			os.Remove(e.paths[i])
+		if savedMask&(1<<uint(i)) == 0 {
+			e.bystander[i] = []string{"absent", "altered", ""}[rng.Intn(3)]
 		}
 	}
 	desc := fmt.Sprintf("reference-written set: %d entries, saved mask %b, %d volumes", total, savedMask, nv)
